@@ -125,9 +125,10 @@ func runPrestate(o *opts) {
 		}
 		// choose a pre-state for every entry of the committed tree
 		rmrf(abs)
-		var digests []string
+		// digests by content, so that an "other" link never happens to be the right one
+		digests := map[string]string{}
 		for _, ob := range c.w.Cache {
-			digests = append(digests, ob.Digest)
+			digests[ob.Digest] = string(ob.Data)
 		}
 		kinds := map[string]int{}
 		pre := mutateForPrestate(rr, cur, c.art, digests, kinds, 0, c.kind == "norec")
@@ -192,7 +193,7 @@ func splitPath(p string) []string {
 
 // mutateForPrestate builds the pre-existing workspace entry for a committed entry.
 // cur = the entry as the commit left it (link or file), orig = the original content.
-func mutateForPrestate(r *rng, cur, orig *Node, digests []string, kinds map[string]int, depth int, norec bool) *Node {
+func mutateForPrestate(r *rng, cur, orig *Node, digests map[string]string, kinds map[string]int, depth int, norec bool) *Node {
 	if orig.Kind == "d" {
 		switch r.intn(10) {
 		case 0:
@@ -247,12 +248,15 @@ func mutateForPrestate(r *rng, cur, orig *Node, digests []string, kinds map[stri
 		kinds["different-file"]++
 		return nFile(append([]byte("different:"), orig.Data...))
 	case 5:
-		if len(digests) > 1 {
-			d := digests[r.intn(len(digests))]
-			if cur == nil || cur.Kind != "lc" || string(cur.Data) != d {
-				kinds["other-link"]++
-				return &Node{Kind: "lc", Data: []byte(d)}
+		var others []string
+		for _, d := range sortedKeys(digests) {
+			if digests[d] != string(orig.Data) {
+				others = append(others, d)
 			}
+		}
+		if len(others) > 0 {
+			kinds["other-link"]++
+			return &Node{Kind: "lc", Data: []byte(others[r.intn(len(others))])}
 		}
 		kinds["dangling-link"]++
 		return &Node{Kind: "lc", Data: []byte("00" + "ffffffffffffffffffffffffffffffffffffffffffffffffffffffffffffff")}
